@@ -235,7 +235,8 @@ CHECKS = {
         ),
         "technique": "runtime monitoring: step-wise reference semantics on "
                      "the real queue + enumerated restarts + follow-up "
-                     "monitors",
+                     "monitors; thorough tier adds a Miri stage on the "
+                     "multi-threaded queue",
         "design_ref": "DESIGN.md section 4, C09",
     },
     "C05": {
@@ -578,8 +579,12 @@ CHECKS = {
             "directed part enumerates single pre-emptions at the yield "
             "points of the verif-hooks only (lock acquisition, between "
             "locks, around command/WAL stores and cache updates)",
-            "Miri and ThreadSanitizer runs of this workload are not part "
-            "of the registered commands (see DESIGN.md, sanitizer layer)",
+            "thorough tier only: a Miri stage (FFI-free slice: memory "
+            "back-end + AggregateStore + toy aggregate, schedules chosen by "
+            "Miri's seeded scheduler) and a ThreadSanitizer stage (the "
+            "regular worker) run after the native shards; a sanitizer report "
+            "with a krill frame is a violation, a tool-chain problem is "
+            "inconclusive (DESIGN.md section 2.4)",
         ],
         "level_text": (
             "Runtime monitoring of real multi-threaded executions of the "
@@ -594,7 +599,9 @@ CHECKS = {
         ),
         "technique": "runtime monitoring: client-boundary history recording "
                      "+ prefix/version/exactly-once checker under schedule "
-                     "perturbation",
+                     "perturbation; thorough tier adds Miri (UB/data-race "
+                     "interpreter, seeded schedules) and ThreadSanitizer "
+                     "stages",
         "design_ref": "DESIGN.md section 4, C07",
     },
     "C12": {
@@ -824,12 +831,13 @@ CHECKS = {
         ),
         "level_note": (
             "Trusted: the harness' client-side log; rpki-rs validation for "
-            "the final relying-party walk; ThreadSanitizer is not part of "
-            "the registered commands."
+            "the final relying-party walk; a ThreadSanitizer stage runs "
+            "in the thorough tier only."
         ),
         "technique": "runtime monitoring: real thread pool + scheduler under "
                      "concurrent clients, progress monitor and serial-"
-                     "equivalence oracle",
+                     "equivalence oracle; thorough tier adds a "
+                     "ThreadSanitizer stage",
         "design_ref": "DESIGN.md section 4, C18",
     },
     "C06": {
